@@ -21,8 +21,16 @@ ASSUMPTIONS = [
 NOLIMIT = {1: "18446744073709551615", 3: "-1"}
 
 
-def expected_tails(d, has_l, l, has_o, o, ordered, setop):
-    """Accepted texts (list) the paginated statement adds after the un-paginated one; values as text pieces."""
+def expected_tails(d, has_l, l, has_o, o, ordered, setop, o_is_zero=False):
+    """Accepted texts (list) the paginated statement adds after the un-paginated one; values as text pieces.
+    `o_is_zero`: the offset given is 0 - 'skip no rows' may also be written by leaving the offset clause out."""
+    out = _tails(d, has_l, l, has_o, o, ordered, setop)
+    if has_o and o_is_zero and not (d == 4 and has_l):
+        out = out + _tails(d, has_l, l, False, o, ordered, setop)
+    return out
+
+
+def _tails(d, has_l, l, has_o, o, ordered, setop):
     L, O = l, o
     if not has_l and not has_o:
         return [""]
@@ -79,6 +87,9 @@ def check_param(out, vals, d, prefix, suffix, has_l, l, has_o, o, ordered, setop
                         continue
                 if len(vals) == len(want) and all(a == b for a, b in zip(vals, want)):
                     return True
+    if has_o and o == 0 and not (d == 4 and has_l):
+        # 'skip no rows' may also be written by leaving the offset clause (and its value) out
+        return check_param(out, vals, d, prefix, suffix, has_l, l, False, o, ordered, setop)
     return False
 
 
@@ -108,6 +119,10 @@ def paginate(q, d, route, has_l, l, has_o, o):
         return q.slice(slice(o if has_o else None, l if has_l else None))
     if route == 3:
         return q[(o if has_o else None):(l if has_l else None)]
+    if route == 5:  # an offset set earlier is overridden by a later slice with an explicit start
+        if not has_o:
+            return None
+        return q.offset(7).limit(8)[o:(l if has_l else None)] if has_l else q.offset(7)[o:]
     if route == 4:
         if d != 4:
             return None
@@ -157,12 +172,12 @@ def base_sql(pos, d, ordered):
     witness=[dict(d=5, pos=0, param=0, route=0, has_l=True, l=5, has_o=True, o=10, ordered=False),
              dict(d=4, pos=1, param=1, route=4, has_l=True, l=0, has_o=False, o=0, ordered=True),
              dict(d=1, pos=2, param=0, route=3, has_l=True, l=3, has_o=True, o=0, ordered=False)],
-    doc="limit/offset presence x values 0..N x 5 setter routes (limit/offset in both call orders, slice, [a:b], "
-        "fetch_next) x ORDER BY presence, at top level / FROM subquery / set-operation operand, inline and parameterised",
+    doc="limit/offset presence x values 0..N x 6 setter routes (limit/offset in both call orders, slice, [a:b], "
+        "fetch_next, slice overriding an earlier offset) x ORDER BY presence, at top level / FROM subquery / set-operation operand, inline and parameterised",
 )
 def c09_select(d: int, pos: int, param: int, route: int, has_l: bool, l: int, has_o: bool, o: int, ordered: bool) -> int:
     """
-    bound: 0 <= route <= 4
+    bound: 0 <= route <= 5
     bound: 0 <= l <= N and 0 <= o <= N
     """
     if route == 0:
@@ -173,8 +188,10 @@ def c09_select(d: int, pos: int, param: int, route: int, has_l: bool, l: int, ha
         route = 2
     elif route == 3:
         route = 3
-    else:
+    elif route == 4:
         route = 4
+    else:
+        route = 5
     q = paginate(base_query(d, ordered), d, route, has_l, l, has_o, o)
     if q is None:
         return SKIP
@@ -185,11 +202,12 @@ def c09_select(d: int, pos: int, param: int, route: int, has_l: bool, l: int, ha
         out = outer.get_sql(dctx(d))
         note("sql", out)
         ok = False
-        for t in expected_tails(d, has_l, str(l), has_o, str(o), ordered, False):
+        zero = bool(has_o and o == 0)
+        for t in expected_tails(d, has_l, str(l), has_o, str(o), ordered, False, zero):
             if out == prefix + t + suffix:
                 ok = True
                 break
-        note("accepted", [prefix + t + suffix for t in expected_tails(d, has_l, str(l), has_o, str(o), ordered, False)])
+        note("accepted", [prefix + t + suffix for t in expected_tails(d, has_l, str(l), has_o, str(o), ordered, False, zero)])
         return verdict(ok, "c09_select", **args)
     pctx = dctx(d, parameterized=True)
     out = outer.get_sql(pctx)
